@@ -227,7 +227,21 @@ def main():
                     v = verdicts(x, cats)
                     uv = verdicts(x, users) if users else {}
                     rows.append({"backend": "duck-" + style, "label": name, "facets": facets_of(dt), "kind": "byname", "canon": name, "verdicts": v, "user_verdicts": uv})
-    print(json.dumps({"rows": rows, "notes": notes, "categories": sorted(cats)}))
+    # a family of user categories built from one working list that is extended BETWEEN the class statements: a category means the
+    # names it was defined with
+    import numpy as np
+    from jaxtyping import AbstractDtype as _AD
+    work = ["float16"]
+    Half = type("Half", (_AD,), {"dtypes": work})
+    half_early = Half[np.ndarray, "..."]
+    work.append("float32")
+    Wider = type("Wider", (_AD,), {"dtypes": work})
+    half_late = Half[np.ndarray, "..."]
+    f16, f32 = np.zeros((2,), "float16"), np.zeros((2,), "float32")
+    family = {"Half(early annotation) float16": [bool(isinstance(f16, half_early)), True], "Half(early annotation) float32": [bool(isinstance(f32, half_early)), False],
+              "Half(annotation written after the list grew) float32": [bool(isinstance(f32, half_late)), False], "Half(late) float16": [bool(isinstance(f16, half_late)), True],
+              "Wider float32": [bool(isinstance(f32, Wider[np.ndarray, "..."])), True]}
+    print(json.dumps({"rows": rows, "notes": notes, "categories": sorted(cats), "family": family}))
 
 
 if __name__ == "__main__":
